@@ -721,9 +721,48 @@ def sm_format(vm, o, args, kw):
     return format_braces(vm, o, args, kw)
 
 
+def m_re_fullmatch(vm, args, kw):
+    pattern, s = args[0], args[1]
+    if not isinstance(s, SStr):
+        return re.fullmatch(*args, **kw)
+    flags = args[2] if len(args) > 2 else kw.get('flags', 0)
+    if isinstance(pattern, re.Pattern):
+        flags = flags | (pattern.flags & ~re.UNICODE)
+        pattern = pattern.pattern
+    wrapped = ('(?:%s)\\Z' % pattern) if isinstance(pattern, str) else (b'(?:' + pattern + b')\\Z')
+    return m_re_search(vm, [wrapped, s, flags], {}, True)
+
+
+def pm_search(anchored):
+    def model(vm, o, args, kw):
+        if len(args) != 1 or kw:
+            if not isinstance(args[0] if args else None, SStr):
+                return (o.match if anchored else o.search)(*args, **kw)
+            raise Unsupported('Pattern.match/search with pos/endpos on a symbolic string')
+        return m_re_search(vm, [o, args[0]], {}, anchored)
+    return model
+
+
+def pm_fullmatch(vm, o, args, kw):
+    if len(args) != 1 or kw:
+        if not isinstance(args[0] if args else None, SStr):
+            return o.fullmatch(*args, **kw)
+        raise Unsupported('Pattern.fullmatch with pos/endpos on a symbolic string')
+    return m_re_fullmatch(vm, [o, args[0]], {})
+
+
+def pm_sub(vm, o, args, kw):
+    return m_re_sub(vm, [o] + list(args), kw)
+
+
 def install(vm):
     from . import models
     vm.models[id(bin)] = m_bin
+    vm.models[id(re.fullmatch)] = m_re_fullmatch
+    vm.method_models[(re.Pattern, 'match')] = pm_search(True)
+    vm.method_models[(re.Pattern, 'search')] = pm_search(False)
+    vm.method_models[(re.Pattern, 'fullmatch')] = pm_fullmatch
+    vm.method_models[(re.Pattern, 'sub')] = pm_sub
     vm.models[id(re.sub)] = m_re_sub
     import posixpath as _pp
     vm.models[id(_pp.splitext)] = m_splitext
